@@ -4,6 +4,8 @@
 -/
 import GfsModel.Disk
 import GfsProofs.DiskLemmas
+import GfsGen.Facts
+import GfsModel.ExpectedSrc
 
 namespace Gfs.Props.C07
 open Gfs Gfs.Spec Gfs.Proofs
@@ -46,5 +48,10 @@ theorem C07_glob_only_frames (o : ListOpts) (t : Seq) (items : List FileItem)
 /-- the glob's slice expression is within bounds under the guard the code tests -/
 theorem C07_slice_in_bounds (base ext name : Bytes) (h : base.length + ext.length ≤ name.length) :
     base.length ≤ name.length - ext.length ∧ name.length - ext.length ≤ name.length := by omega
+
+/-- the declarations of /repo this property's model and specification were written from are,
+    on this run, the ones the model was last aligned with (digest of their comment- and
+    layout-insensitive fingerprints, re-extracted by tools/gofacts) -/
+theorem C07_source : Gfs.Gen.sourceDigestC07 = Gfs.expectedSourceDigestC07 := by decide
 
 end Gfs.Props.C07
